@@ -222,7 +222,11 @@ impl Real {
 	pub(crate) fn cos<I: Interrupt>(self, int: &I) -> FResult<Exact<Self>> {
 		// cos(x) = sin(x + pi/2)
 		let half_pi = Exact::new(Self::pi(), true).div(&Exact::new(Self::from(2), true), int)?;
-		Exact::new(self, true).add(half_pi, int)?.value.sin(int)
+		let shifted = Exact::new(self, true).add(half_pi, int)?;
+		// a rational x plus the rational stand-in for pi/2 is not x + pi/2:
+		// keep that in the exactness flag
+		let shifted_exact = shifted.exact;
+		Ok(shifted.value.sin(int)?.combine(shifted_exact))
 	}
 
 	pub(crate) fn asin<I: Interrupt>(self, int: &I) -> FResult<Self> {
